@@ -1048,3 +1048,71 @@ func Origin(v ssa.Value) ssa.Value {
 	}
 	return v
 }
+
+// OnlyThroughPassFlag is OnlyThroughPass made sensitive to one boolean loop flag: flag is a phi of
+// bools; a branch on flag (or !flag) takes its "flag is true" edge only if the block holding the phi
+// was last entered through an edge whose incoming value is not the constant false. (Handles
+// `for !done { …; if cap exceeded {break}; done = x }; if !done {return}; charge`.)
+func OnlyThroughPassFlag(fn *ssa.Function, target *ssa.BasicBlock, guards []Guard, flag *ssa.Phi) bool {
+	cut := map[Edge]bool{}
+	for _, g := range guards {
+		cut[g.PassEdge()] = true
+	}
+	type st struct {
+		b *ssa.BasicBlock
+		s int // 1: flag known false, 2: maybe true
+	}
+	if len(fn.Blocks) == 0 {
+		return false
+	}
+	seen := map[st]bool{}
+	work := []st{{fn.Blocks[0], 2}}
+	for len(work) > 0 {
+		x := work[len(work)-1]
+		work = work[:len(work)-1]
+		if seen[x] {
+			continue
+		}
+		seen[x] = true
+		if x.b == target {
+			return false
+		}
+		trueEdge := -1
+		if len(x.b.Instrs) > 0 {
+			if iff, ok := x.b.Instrs[len(x.b.Instrs)-1].(*ssa.If); ok {
+				if iff.Cond == Value(flag) {
+					trueEdge = 0
+				} else if u, isU := iff.Cond.(*ssa.UnOp); isU && u.Op == token.NOT && u.X == Value(flag) {
+					trueEdge = 1
+				}
+			}
+		}
+		for i, s := range x.b.Succs {
+			if cut[Edge{x.b, i}] {
+				continue
+			}
+			if i == trueEdge && x.s == 1 {
+				continue
+			}
+			ns := x.s
+			if s == flag.Block() {
+				ns = 2
+				for pi, pr := range s.Preds {
+					if pr == x.b && pi < len(flag.Edges) {
+						if c, ok := flag.Edges[pi].(*ssa.Const); ok && c.Value != nil && c.Value.String() == "false" {
+							ns = 1
+						} else {
+							ns = 2
+						}
+						break
+					}
+				}
+			}
+			work = append(work, st{s, ns})
+		}
+	}
+	return true
+}
+
+// Value is a helper to compare an ssa.Value-implementing pointer with interface values.
+func Value(v ssa.Value) ssa.Value { return v }
